@@ -35,7 +35,9 @@ def write_workflow(path, wf):
         g["edges"].append({"source": e["u"] - 1, "target": e["v"] - 1,
                            "transfer_data": e["vol"]})
     with open(path, "w") as f:
-        json.dump({"header": {}, "graph": g}, f)
+        # the header of a workflow file carries generator metadata that the
+        # simulator must not interpret (the repository's files say "time": "false")
+        json.dump({"header": wf.get("header", {}), "graph": g}, f)
 
 
 def materialise(cfg, d):
